@@ -22,7 +22,7 @@ func Any(parsers ...parsley.Parser) parser.Func {
 	return parser.Func(func(ctx *parsley.Context, leftRecCtx data.IntMap, pos parsley.Pos) (parsley.Node, data.IntSet, parsley.Error) {
 		cp := data.EmptyIntSet
 		var res parsley.Node
-		var err parsley.Error
+		var err, startErr parsley.Error
 		for _, p := range parsers {
 			ctx.RegisterCall()
 			res2, cp2, err2 := p.Parse(ctx, leftRecCtx, pos)
@@ -31,8 +31,17 @@ func Any(parsers ...parsley.Parser) parser.Func {
 			if err2 != nil && (err == nil || err2.Pos() >= err.Pos()) {
 				if err2.Pos() > pos || !parsley.IsNotFoundError(err2) {
 					err = err2
+				} else if startErr == nil {
+					startErr = err2
 				}
 			}
+		}
+
+		// The not found errors at our own position are not returned (so Name()
+		// can replace them), but if nothing else failed then they are the
+		// furthest failure, so the context has to know about them.
+		if err == nil {
+			ctx.SetError(startErr)
 		}
 
 		if res == nil {
